@@ -337,15 +337,47 @@ func init() {
 	}
 }
 
-// FormatTimeBytes / ParseTimeBytes (types/utils.go): replaced by an order-isomorphic 29-byte encoding
-// (8 bytes big-endian internal seconds, 4 bytes big-endian nanoseconds, 17 zero bytes).  The real function's
-// output (ASCII "2006-01-02T15:04:05.000000000") orders the same way for years 0..9999 (assumption, see DESIGN).
+// Sortable time text.  types.FormatTimeBytes / ParseTimeBytes are interpreted; below them,
+// (time.Time).Format(SortableTimeFormat) and time.Parse(SortableTimeFormat, s) are replaced by an order-isomorphic
+// 29-byte encoding of the WALL-CLOCK reading in the time's own location (8 bytes big-endian seconds since year 1 plus
+// the zone offset, 4 bytes big-endian nanoseconds, 17 zero bytes) and its inverse (read as UTC, as time.Parse does for a
+// layout without zone).  The real ASCII output ("2006-01-02T15:04:05.000000000") orders the same way for years
+// 0..9999 (assumption, see DESIGN).  Other layouts fall through to the interpreted time package.
+const sortableTimeFormat = "2006-01-02T15:04:05.000000000"
+
+// zoneOffset returns the fixed offset (seconds east of UTC) of a *time.Location value, 0 for UTC/nil.
+func (i *interpreter) zoneOffset(loc value) int64 {
+	p, ok := loc.(*value)
+	if !ok || p == nil {
+		return 0
+	}
+	if g := i.prog.ImportedPackage("time").Var("utcLoc"); g != nil {
+		if gp, ok := i.globals[g]; ok && gp == p {
+			return 0
+		}
+	}
+	st, ok := (*p).(structure)
+	if !ok || len(st) < 2 {
+		unsup("time zone of an unknown Location value")
+	}
+	zones, _ := st[1].([]value)
+	if len(zones) != 1 {
+		unsup("time.Format in a location that is not UTC or a fixed zone")
+	}
+	z := zones[0].(structure)
+	return asInt64(z[1])
+}
+
 func init() {
-	externals[RepoMod+"/types.FormatTimeBytes"] = func(fr *frame, a []value) value {
+	externals["(time.Time).Format"] = func(fr *frame, a []value) value {
+		if l, ok := a[1].(string); !ok || l != sortableTimeFormat {
+			return fallthroughSSA{}
+		}
 		i := fr.i
 		C := i.m.C
 		st := a[0].(structure)
 		wall, ext := st[0], st[1]
+		off := i.zoneOffset(st[2])
 		// no monotonic reading expected
 		wt := i.term(wall)
 		if !(wt.Hi != nil && wt.Hi.Cmp(pow2(63)) < 0) {
@@ -354,7 +386,7 @@ func init() {
 			}
 		}
 		nsec := C.Mod(wt, C.Const(pow2(30)))
-		sec := i.term(ext)
+		sec := C.Add(i.term(ext), C.ConstI(off))
 		if sec.Lo == nil || sec.Lo.Sign() < 0 {
 			// clamp: times before year 1 are not produced by the harnesses
 			if i.decide(C.Lt(sec, C.ConstI(0))) {
@@ -371,12 +403,15 @@ func init() {
 		for j := 12; j < 29; j++ {
 			out[j] = uint8(0)
 		}
-		return out
+		return mkStr(out)
 	}
-	externals[RepoMod+"/types.ParseTimeBytes"] = func(fr *frame, a []value) value {
+	externals["time.Parse"] = func(fr *frame, a []value) value {
+		if l, ok := a[0].(string); !ok || l != sortableTimeFormat {
+			return fallthroughSSA{}
+		}
 		i := fr.i
 		C := i.m.C
-		bs := a[0].([]value)
+		bs := strCells(a[1])
 		tt := fr.i.prog.ImportedPackage("time").Type("Time").Type()
 		if len(bs) != 29 {
 			return tuple{zero(tt), i.mkError("parsing time: bad length")}
@@ -709,4 +744,30 @@ func init() {
 	externals["strings.Replace"] = func(fr *frame, a []value) value {
 		return strings.Replace(concStr(a[0]), concStr(a[1]), concStr(a[2]), int(fr.i.idx(a[3])))
 	}
+}
+
+// The on-disk key store: types.NewLevelDB(name, dir) opens one in-memory tm-db MemDB per (name, dir), kept for the whole
+// path, so that crypto/keys.lazyKeybase (which reopens its database for every operation) runs; goleveldb itself and the
+// file system are outside the model.  cmn.EnsureDir succeeds.
+func init() {
+	externals[RepoMod+"/types.NewLevelDB"] = func(fr *frame, a []value) value {
+		key := strArg(a[0]) + "|" + strArg(a[1])
+		if fr.i.memDBs == nil {
+			fr.i.memDBs = map[string]value{}
+		}
+		if db, ok := fr.i.memDBs[key]; ok {
+			return tuple{db, iface{}}
+		}
+		pkg := fr.i.prog.ImportedPackage("github.com/tendermint/tm-db")
+		if pkg == nil {
+			unsup("tm-db not loaded")
+		}
+		fn := pkg.Func("NewMemDB")
+		p := call(fr.i, fr, token.NoPos, fn, nil)
+		db := value(iface{t: fn.Signature.Results().At(0).Type(), v: p})
+		fr.i.memDBs[key] = db
+		fr.i.m.Stubs["types.NewLevelDB: one in-memory MemDB per (name, dir) for the whole path"]++
+		return tuple{db, iface{}}
+	}
+	externals["github.com/tendermint/tendermint/libs/common.EnsureDir"] = func(fr *frame, a []value) value { return iface{} }
 }
